@@ -82,9 +82,19 @@ def targets(ctx):
                     out.append(("attribute_identity", f"E.{n} is not E({v})"))
                 if copy.copy(by_num) is not by_num or copy.deepcopy(by_num) is not by_num:
                     out.append(("copy_identity", f"copy/deepcopy of E({v}) is a new object"))
-                p = guard("pickle", lambda: pickle.loads(pickle.dumps(by_num)))
-                if p.name != first or p.value != v or p != v:
-                    out.append(("pickle_member", f"pickled E({v}) -> {p.name!r}/{p.value!r}"))
+                for proto in range(0, pickle.HIGHEST_PROTOCOL + 1):
+                    # every pickle protocol; also inside a container, as part of some larger pickled state
+                    p, plist = guard(f"pickle_protocol_{proto}", lambda: pickle.loads(pickle.dumps((by_num, [by_num]), protocol=proto)))
+                    bad = None
+                    for q in (p, plist[0]):
+                        try:
+                            if q.name != first or q.value != v or q != v or type(q) is not E:
+                                bad = f"{q.name!r}/{q.value!r}"
+                        except AttributeError as e:
+                            bad = f"number {int(q)} without name / value ({e})"
+                    if bad:
+                        out.append(("pickle_member", f"protocol {proto}: pickled E({v}) -> {bad}"))
+                        break
                 if by_num != v or not (by_num == v):
                     out.append(("member_eq_int", f"E({v}) != {v}"))
             members = guard("members", lambda: dict(E.__members__))
@@ -120,17 +130,32 @@ def targets(ctx):
                 ("class_setattr_dunder_members", lambda: setattr(E, "__members__", {})),
                 ("class_setattr_dunder_hash", lambda: setattr(E, "__hash__", lambda a: 0)),
                 ("class_delattr_dunder_repr", lambda: delattr(E, "__repr__")),
+                # ... and through what the class hands out: the member table must be read-only
+                ("members_table_setitem", lambda: E.__members__.__setitem__("SNEAKED_IN", m0)),
+                ("members_table_delitem", lambda: E.__members__.__delitem__(n0)),
+                ("members_table_clear", lambda: E.__members__.clear()),
+                ("members_table_pop", lambda: E.__members__.pop(n0)),
+                ("members_table_update", lambda: E.__members__.update({"SNEAKED_IN2": m0})),
             ):
                 try:
                     fn()
                     out.append(("mutation_allowed", f"{label} did not raise"))
                 except AttributeError:
                     pass
+                except TypeError:
+                    if not label.startswith("members_table_"):  # a read-only mapping refuses with TypeError
+                        out.append(("mutation_wrong_exception", f"{label}: TypeError"))
                 except Exception as e:  # noqa: BLE001
                     out.append(("mutation_wrong_exception", f"{label}: {type(e).__name__}: {e}"))
-            if (E(v0) is not m0 or m0.name != canon[v0] or m0.value != v0 or E[n0] is not m0 or hasattr(E, "BRAND_NEW")
-                    or m0 == v0 + 1 or int(m0) != v0 or n0 not in E.__members__):
-                out.append(("state_changed_by_mutation_attempt", f"E({v0}) -> {E(v0)!r}"))
+            try:
+                changed = (E(v0) is not m0 or m0.name != canon[v0] or m0.value != v0 or E[n0] is not m0 or hasattr(E, "BRAND_NEW")
+                           or m0 == v0 + 1 or int(m0) != v0 or n0 not in E.__members__ or "SNEAKED_IN" in E.__members__
+                           or len(E) != len(set(canon)) and len(E) != len(defn) or [m.value for m in E][:1] != [defn[0][1]])
+                what = "" if not changed else f"E({v0}) -> {E(v0)!r}; members {sorted(E.__members__)}"
+            except Exception as e:  # noqa: BLE001 - a lookup that worked before the attempts fails now
+                changed, what = True, f"{type(e).__name__}: {e}"
+            if changed:
+                out.append(("state_changed_by_mutation_attempt", what))
         finally:
             try:
                 delattr(sys.modules[__name__], E.__name__)
